@@ -168,8 +168,10 @@ def oracle(cmd, kw, inp, tmp):
 
     ws = inp["ws"]
     if cmd == "cls":
-        w, model = lib_model(ws, kw, inp)
+        # the documented library usage: choose the backend, then build the model (the command builds the model first and switches afterwards;
+        # by C11 that must not matter, so the oracle deliberately does it the other way round)
         tl = set_cli_backend(kw)
+        w, model = lib_model(ws, kw, inp)
         extra = {}
         if kw.get("toybased"):
             extra = dict(calctype="toybased")
